@@ -174,7 +174,7 @@ func scChurn(r *rng, o churnOpts) *cluster {
 					pending = append(pending, c.call(l.id, "apply", pay, 0))
 				}
 				n.r.VerifFireHeartbeatTimeout()
-				if n.awaitCrash(40 * time.Millisecond) && r.chance(3, 4) {
+				if n.awaitCrash(40*time.Millisecond) && r.chance(3, 4) {
 					n.start()
 				}
 			}
@@ -351,25 +351,25 @@ var scenarioFamilies = map[int]func(r *rng) *cluster{
 		return scChurn(r, churnOpts{clusterOpts: clusterOpts{voters: 3 + r.intn(3), nonvoters: r.intn(2), trailing: []uint64{0, 2, 100}[r.intn(3)], maxAppend: 1 + r.intn(4)},
 			steps: 10 + r.intn(15), crashes: true, snapshots: true, transfers: true, dupLinks: true})
 	},
-	2: scElection,
-	3: scStaleGrants,
-	4: scIsolate,
-	5: scLeaseIsolation,
-	6: scHealthy,
-	7: scStaleTailSnapshot,
-	8: scConverge,
-	9: scGrowSingle,
+	2:  scElection,
+	3:  scStaleGrants,
+	4:  scIsolate,
+	5:  scLeaseIsolation,
+	6:  scHealthy,
+	7:  scStaleTailSnapshot,
+	8:  scConverge,
+	9:  scGrowSingle,
 	10: scVerify,
 	11: scBarrier,
 	12: scRestore,
 }
 
 type scResult struct {
-	family int
-	seed   uint64
-	events int
+	family                 int
+	seed                   uint64
+	events                 int
 	leaders, acks, crashes int
-	findings []finding
+	findings               []finding
 }
 
 func runScenario(family int, seed uint64) scResult {
